@@ -27,6 +27,64 @@ fn judge(got: &Outcome<Vec<Cell>>, model: &[Exp], cmp: Cmp) -> Option<(String, S
     }
 }
 
+/// per-output-cell factor under x -> s*x (power-of-two s: the relation is exact, see rollcheck)
+fn scale_factors(op: AggOp, s1: f64, s2: f64) -> Option<Vec<f64>> {
+    use AggOp::*;
+    Some(match op {
+        VSum | VMean | VMax | VMin | VFirst | VLast | VStd(_) => vec![s1],
+        VVar(_) => vec![s1 * s1],
+        VMeanVar(_) => vec![s1, s1 * s1],
+        VSkew(_) | VKurt(_) | CountValid | CountNone | VArgmax | VArgmin => vec![1.0],
+        VCov(_) => vec![s1 * s2],
+        VCorr(_) => vec![1.0],
+        _ => return None,
+    })
+}
+fn rel_close(g: f64, e: f64) -> bool {
+    g == e || (g - e).abs() <= 1e-9 * e.abs().max(g.abs())
+}
+fn check_scaling(fam: &str, word: &[u8], op: AggOp, a: &[X], b: &[X], base: &Outcome<Vec<Cell>>, model: &[Exp], ctx: &mut Ctx) {
+    let open = model.iter().any(|e| e.any || (e.null_ok && e.val.is_some()));
+    if open {
+        return;
+    }
+    for (s1, s2) in [(1.0 / 8192.0, 1.0 / 8192.0), (1024.0, 1.0 / 8192.0), (1.0 / 8192.0, 1024.0), (1024.0, 1024.0)] {
+        if !op.binary() && s1 != s2 {
+            continue;
+        }
+        let factors = match scale_factors(op, s1, s2) {
+            Some(f) => f,
+            None => return,
+        };
+        let sa: Vec<X> = a.iter().map(|v| v.map(|p| p * s1)).collect();
+        let sb: Vec<X> = b.iter().map(|v| v.map(|p| p * s2)).collect();
+        let got = match run_agg_valid::<f64>(op, &sa, &sb, Source::TIter) {
+            Some(g) => g,
+            None => continue,
+        };
+        ctx.evals += 1;
+        let ok = match (base, &got) {
+            (Outcome::Ok(x), Outcome::Ok(y)) => x.len() == y.len() && x.iter().zip(y).zip(&factors).all(|((p, q), f)| match (p.num(), q.num()) {
+                (None, None) => true,
+                (Some(u), Some(v)) => rel_close(v, u * f),
+                _ => false,
+            }),
+            (Outcome::Panic(_), Outcome::Panic(_)) => true,
+            _ => false,
+        };
+        if !ok {
+            ctx.violation(Violation {
+                entry: format!("scaling:{}", op.name()),
+                finding: None,
+                size: a.len() * 100,
+                case: json!({"family": fam, "word": word, "series": json_word(a), "second": json_word(b), "op": format!("{op:?}"), "scales": [s1, s2]}),
+                expected: format!("{:?} * {}", factors, show_outcome(base)),
+                got: show_outcome(&got),
+            });
+        }
+    }
+}
+
 fn valid_ops(len: usize, alpha: &[X]) -> Vec<AggOp> {
     use AggOp::*;
     let mut v = vec![CountValid, CountNone, VFirst, VLast, VSum, VMean, VMax, VMin, VArgmax, VArgmin];
@@ -99,6 +157,9 @@ impl Numeric {
                         Some(g) => g,
                     };
                     ctx.eval(&self.name, outcome_hash(&got));
+                    if *tname == "f64" && src == Source::TIter {
+                        check_scaling(&self.name, word, op, &x, &[], &got, &model, ctx);
+                    }
                     if let Some((exp, g)) = judge(&got, &model, cmp_of(op)) {
                         ctx.violation(Violation {
                             entry: op.name().into(),
@@ -166,6 +227,9 @@ impl TreeSys for Numeric {
     fn max_len(&self) -> usize {
         self.max_len
     }
+    fn name(&self) -> String {
+        self.name.clone()
+    }
     fn visit(&self, w: &[u8], _p: Option<&()>, ctx: &mut Ctx) {
         self.check_word(w, ctx)
     }
@@ -195,6 +259,9 @@ impl Pairs {
                         Some(g) => g,
                     };
                     ctx.eval(name, outcome_hash(&got));
+                    if tname == "f64" && src == Source::TIter {
+                        check_scaling(name, word, op, &a, b, &got, &model, ctx);
+                    }
                     if let Some((exp, g)) = judge(&got, &model, cmp_of(op)) {
                         ctx.violation(Violation {
                             entry: op.name().into(),
